@@ -12,17 +12,26 @@
     * the instruction patterns the jump pass rewrites behave like what they are replaced with:
       `OpTrue; OpJumpIfFalse x` is a no-op pair (falls through, stack unchanged), `OpFalse; OpJumpIfFalse x`
       is a jump to `x` (stack unchanged), OpNop does nothing.
-  Not proved: preservation of behaviour for whole programs (the passes ignore where jumps land, so the
-  windows above are only sound when no jump targets their inside; the compiler's join placeholders are
-  what prevents that).  It is tested by the streams S-opt (constant arithmetic / comparisons /
-  conditions placed inside and next to every control-flow construct) with the direct oracle
-  "optimised and NoOptimize evaluators agree on result, host-call trace, variables and stack residue for
-  every run", and the optimised real bytes of every generated program pass the Lean byte-code verifier
-  (C18).
+  Whole programs (Proofs/OptSim1…8, Model/OptCheck): a forward-simulation theorem for the VM loop - poll
+  counts aside, at any call depth, through nested function runs - under a point-by-point correspondence
+  of instruction pointers with "windows" each side crosses in its own number of turns; a validator for
+  the steps of all four passes (maths, jumps, NOP removal with jump relocation, dead-code removal), proved
+  sound with respect to that theorem; and `C03_optimizer_preserves_finished_runs`: if every step the
+  optimizer takes on a program validates, every run of the NoOptimize program that ends is matched by a
+  run of the optimised program with the same result, output and variables.  The validator is run on the
+  raw and optimised bytes the real evaluator holds, for every generated program (translation validation);
+  it refuses exactly the √ fold (KF-12).  Not proved: the converse direction (a run of the optimised
+  program that ends is matched by one of the raw program - i.e. that the optimizer cannot make a looping
+  script terminate); that validation succeeds for every compilable script (it is checked per program).
+  The streams S-opt (constant arithmetic / comparisons / conditions placed inside and next to every
+  control-flow construct) carry the direct oracle "optimised and NoOptimize evaluators agree on result,
+  host-call trace, variables and stack residue for every run", and the optimised real bytes of every
+  generated program pass the Lean byte-code verifier (C18).
 -/
 import EvalFilter.Model.Api
 import EvalFilter.Props.Tables
 import EvalFilter.Proofs.OptWindows
+import EvalFilter.Proofs.OptSim8
 
 namespace EvalFilter.Props.C03
 open EvalFilter EvalFilter.VM
@@ -191,6 +200,62 @@ theorem C03_sqrt_fold_changes_type (r : Nat) :
   intro v h
   simp only [sqrtOp, pushed] at h
   cases h; rfl
+
+
+/-! ### whole programs: the optimizer cannot be observed by a run that ends
+
+`OptCheck.fullTrace` (Model/OptCheck.lean) replays `optimize` on a body step by step - every fold of the
+maths pass, every elimination of the jump pass, the NOP removal, the dead-code removal - and accepts a step
+only if it is one of the documented window replacements with nothing else changed and no jump or
+fall-through landing inside the window (or, for the two shortening passes, the exact relocation /
+truncation).  The theorem below says what acceptance buys, for programs of any size, at any call depth.
+The checks run `fullTrace` on the raw bytes the real evaluator compiled and compare its result with the
+optimised bytes the real evaluator holds, for every generated program. -/
+
+open EvalFilter.Compiler in
+/-- every body of the compiled program optimises through validated steps only -/
+def validated (c : Compiled) : Bool :=
+  (OptCheck.fullTrace (encodeAll c.main)).isSome && c.funcs.all (fun f => (OptCheck.fullTrace (encodeAll f.code)).isSome)
+
+open EvalFilter.Compiler EvalFilter.OptSim in
+/-- **The optimizer never changes what a finished run does.**  For every compiled program whose
+    optimisation validates, every host-function table, host object, starting variables and step budget: if
+    the run of the program prepared with NoOptimize ends - with a value, an error or a panic - then the run
+    of the optimised program (the default) ends too, with the same result, the same output (host-call
+    markers included, in order) and the same variables.  Poll counts differ (NOPs are polled too), so the
+    context is one that does not cancel. -/
+theorem C03_optimizer_preserves_finished_runs (c : Compiled) (fns : List (Str × FnImpl)) (obj : HostVal)
+    (hv : validated c = true) (f : Nat) (st st' : RunSt) (hst : st.env = st'.env ∧ st.out = st'.out ∧ st.depth = st'.depth)
+    (hend : (run (Api.newMachine c false fns (fun _ => false)) obj f st).1 ≠ .error .outOfFuel) :
+    ∃ f', (run (Api.newMachine c true fns (fun _ => false)) obj f' st').1 = (run (Api.newMachine c false fns (fun _ => false)) obj f st).1 ∧
+      (run (Api.newMachine c true fns (fun _ => false)) obj f' st').2.out = (run (Api.newMachine c false fns (fun _ => false)) obj f st).2.out ∧
+      (run (Api.newMachine c true fns (fun _ => false)) obj f' st').2.env = (run (Api.newMachine c false fns (fun _ => false)) obj f st).2.env := by
+  have e : Api.newMachine c true fns (fun _ => false) = optMachine (Api.newMachine c false fns (fun _ => false)) := by
+    simp [Api.newMachine, optMachine, List.map_map, Function.comp_def]
+  unfold validated at hv
+  simp only [Bool.and_eq_true, List.all_eq_true] at hv
+  have href := optimize_refines (Api.newMachine c false fns (fun _ => false)) obj (fun _ => rfl)
+    (by simpa [Api.newMachine] using hv.1)
+    (by
+      intro u hu
+      simp only [Api.newMachine, List.mem_map] at hu
+      obtain ⟨g, hg, rfl⟩ := hu
+      simpa using hv.2 g hg)
+  obtain ⟨f', h1, h2, h3, _⟩ := href f st st' ⟨hst.1, hst.2.1, hst.2.2, fun e => by cases e⟩ hend
+  rw [e]
+  exact ⟨f', h1.symm, h3.symm, h2.symm⟩
+
+/-- the validator accepts real programs: `x = 1 + 2 * 3; if (true) { x = x + 1; } if (1 == 2) { x = 0; } return x;`
+    compiled by the model compiler optimises in validated steps -/
+example : validated (match Compiler.compileProgram
+    [ .expr (.assign ['x'] (.infix ['+'] (.intLit ['1'] 1) (.infix ['*'] (.intLit ['2'] 2) (.intLit ['3'] 3)))),
+      .expr (.ifE (.boolLit true) [ .expr (.assign ['x'] (.infix ['+'] (.ident ['x']) (.intLit ['1'] 1))) ] none),
+      .expr (.ifE (.infix ['=', '='] (.intLit ['1'] 1) (.intLit ['2'] 2)) [ .expr (.assign ['x'] (.intLit ['0'] 0)) ] none),
+      .ret (.ident ['x']) ] with | .ok c => c | .error _ => ⟨[], [], []⟩) = true := by decide +kernel
+
+/-- … and refuses the one fold that does change behaviour (KF-12): `return √9;` -/
+example : validated (match Compiler.compileProgram [ .ret (.prefix ['√'] (.intLit ['9'] 9)) ] with
+    | .ok c => c | .error _ => ⟨[], [], []⟩) = false := by decide +kernel
 
 /-- the opcode numbering the passes compare bytes with is the one in code/code.go (regenerated) -/
 theorem C03_opcodes_are_the_code : Generated.opcodes = Spec.Tables.opcodes := Props.Tables.gen_opcodes
